@@ -61,3 +61,159 @@ Theorem C01_copy_never_faults :
 Proof. exact copy_never_faults. Qed.
 Print Assumptions C01_copy_never_faults.
 
+
+(* ------------------------------------------------------------------------------------------ *)
+(* THE WHOLE CLIENT PIPELINE AS ONE STATEMENT (theories/HPipeline_proofs.v).
+
+   client_pipeline refuse L buf n, one monadic program over model H:
+     r <- cbor_load (buf);  if r is an item a:
+       cbor_describe (a);  cbor_serialized_size (a);  cbor_serialize (a, out, n);
+       cbor_serialize_alloc (a, &p, &sz) then free (p) when non-NULL;
+       c <- cbor_copy (a);  if c: cbor_serialized_size (c); cbor_decref (&c);
+       cbor_decref (&a)
+   with outcome PErr code pos (NULL item) or PItem code pos read size ser alloc copy_size.
+
+   For EVERY allocator oracle, stack limit, byte buffer (bytes below 256, shorter than SIZE_MAX) and output
+   size, from every world in which the client's accounting holds (Inv own ownd [] w; in particular the
+   empty world): the program never yields Fault - the monad stops at the first Fault, so no step faults
+   and every step returns, whatever the oracle refuses and wherever -; the outcome has one of the two
+   documented shapes (pipe_ok); afterwards the heap is cell for cell what it was before the load (nothing
+   leaked, nothing that existed touched) and Inv / caps / acyclic hold again. *)
+From CB Require Import PRound_proofs HHist_proofs HHist2_proofs HPipeline_proofs.
+From Coq Require Import List NArith.
+Import ListNotations.
+
+(* the two outcomes, in terms of the pure model P: an error is P's error, or a memory error that needed a
+   refused request (or 2^57 items); an item comes with code none, position 0, P's [read], and every
+   observation is P's function of the tree P decodes: size = ssize t, the bytes = serialize_into t n *)
+Theorem C01_pipe_ok_reading : forall refuse L buf n o,
+  pipe_ok refuse L buf n o <->
+  match o with
+  | PErr code pos =>
+      code <> ENone /\
+      ((exists q, load L SIZE_MAX buf = LErr code pos q) \/
+       (code = EMem /\ ((exists i s, refuse i s = true) \/ 2 ^ 57 <= len buf)))
+  | PItem code pos rd size ser al csz =>
+      code = ENone /\ pos = 0 /\
+      exists t, load L SIZE_MAX buf = LOk t rd /\
+        size = ssize t /\ ser = serialize_into t n /\
+        (al = (0, []) \/ serialize_into t (ssize t) = Some al) /\
+        (csz = None \/ csz = Some (ssize t))
+  end.
+Proof. intros. reflexivity. Qed.
+
+Theorem C01_client_pipeline : forall refuse L buf n own ownd w,
+  bytes_ok buf -> len buf < SIZE_MAX -> n < 2 ^ 64 ->
+  Inv own ownd [] w -> caps w -> acyclic w ->
+  (forall k, client_pipeline refuse L buf n w <> Fault k) /\
+  exists o w', client_pipeline refuse L buf n w = Ret o w' /\
+    pipe_ok refuse L buf n o /\
+    (forall b, heap w' b = heap w b) /\
+    Inv own ownd [] w' /\ caps w' /\ acyclic w' /\ next w <= next w'.
+Proof. exact HPipeline_proofs.C01_client_pipeline. Qed.
+Print Assumptions C01_client_pipeline.
+
+(* the same without the hypotheses that are not needed (no bound on n, no caps, no acyclic) *)
+Theorem C01_client_pipeline_spec : forall refuse L buf n own ownd w,
+  bytes_ok buf -> len buf < SIZE_MAX -> Inv own ownd [] w ->
+  exists o w', client_pipeline refuse L buf n w = Ret o w' /\
+    (forall b, heap w' b = heap w b) /\ Inv own ownd [] w' /\ next w <= next w' /\ pipe_ok refuse L buf n o.
+Proof. exact client_pipeline_spec. Qed.
+Print Assumptions C01_client_pipeline_spec.
+
+Theorem C01_client_pipeline_world0 : forall refuse L buf n,
+  bytes_ok buf -> len buf < SIZE_MAX ->
+  exists o w', client_pipeline refuse L buf n world0 = Ret o w' /\
+    pipe_ok refuse L buf n o /\ forall b, heap w' b = None.
+Proof. exact HPipeline_proofs.C01_client_pipeline_world0. Qed.
+Print Assumptions C01_client_pipeline_world0.
+
+(* the program of the statement *)
+Theorem C01_client_pipeline_reading : forall refuse L buf n,
+  client_pipeline refuse L buf n =
+  (r <- load_h refuse L buf ;;
+   match r with
+   | (None, code, pos, _) => ret (PErr code pos)
+   | (Some a, code, pos, rd) =>
+       describe_h a ;;;
+       size <- serialized_size_h a ;;
+       ser <- serialize_h a n ;;
+       al <- (r <- serialize_alloc_h refuse a ;;
+              match r with
+              | (wr, Some p, bytes) => free (Some p) ;;; ret (wr, bytes)
+              | (wr, None, bytes) => ret (wr, bytes)
+              end) ;;
+       csz <- (c <- copy_h refuse a ;;
+               match c with
+               | Some a' => sz <- serialized_size_h a' ;; decref a' ;;; ret (Some sz)
+               | None => ret None
+               end) ;;
+       decref a ;;;
+       ret (PItem code pos rd size ser al csz)
+   end) /\
+  forall a w, describe_h a w = describe_walk (abs_fuel w) a w.
+Proof. intros. split; reflexivity. Qed.
+
+(* what made the composition possible: under ANY allocator a successful cbor_load has built exactly the
+   tree of the pure model (HLoad_proofs; the refinement theorem was for the granting allocator and
+   inputs below 2^57 bytes), so every traversal of the item succeeds *)
+Theorem C01_load_h_refines_any : forall L cap own ownd refuse buf w,
+  SIZE_MAX <= cap -> bytes_ok buf -> len buf < SIZE_MAX -> HCont_proofs.wf w -> Inv own ownd [] w ->
+  exists r w', load_h refuse L buf w = Ret r w' /\
+    (match load L cap buf with
+     | LOk t n => exists a w'', r = (Some a, ENone, 0, n) /\ abs_of a w' = Ret t w''
+     | LErr code p q => r = (None, code, p, q)
+     | LFault => False
+     end \/
+     (((exists i s, refuse i s = true) \/ 2 ^ 57 <= len buf) /\ exists p q, r = (None, EMem, p, q))).
+Proof. exact load_h_refines_any. Qed.
+Print Assumptions C01_load_h_refines_any.
+
+Theorem C01_load_h_ok_is_load_any : forall L cap own ownd refuse buf w a c p r w',
+  SIZE_MAX <= cap -> bytes_ok buf -> len buf < SIZE_MAX -> HCont_proofs.wf w -> Inv own ownd [] w ->
+  load_h refuse L buf w = Ret (Some a, c, p, r) w' ->
+  exists t w'', load L cap buf = LOk t r /\ abs_of a w' = Ret t w'' /\ c = ENone /\ p = 0.
+Proof. exact load_h_ok_is_load_any. Qed.
+Print Assumptions C01_load_h_ok_is_load_any.
+
+(* P-level companion: the bytes cbor_serialize reports for the decoded item are the RFC 8949 encoding of
+   the tree P decodes - all of them when they fit, and otherwise the return value is 0 with a prefix stored *)
+Theorem C01_pipeline_serialize_is_rfc : forall refuse L buf n code pos rd size ser al csz,
+  pipe_ok refuse L buf n (PItem code pos rd size ser al csz) ->
+  exists t, load L SIZE_MAX buf = LOk t rd /\
+    (len (encode_rfc t) <= n -> ser = Some (len (encode_rfc t), encode_rfc t)) /\
+    (n < len (encode_rfc t) -> exists out, ser = Some (0, out) /\ len out <= n /\ exists sfx, encode_rfc t = out ++ sfx).
+Proof. exact pipeline_serialize_is_rfc. Qed.
+Print Assumptions C01_pipeline_serialize_is_rfc.
+
+(* decode-then-serialize is the identity on canonical encodings, whatever the allocator does *)
+Theorem C01_pipeline_roundtrip : forall refuse L t0 n own ownd w code pos rd size ser al csz w',
+  rt_ok L SIZE_MAX t0 -> len (encode_rfc t0) < SIZE_MAX -> len (encode_rfc t0) <= n -> Inv own ownd [] w ->
+  client_pipeline refuse L (encode_rfc t0) n w = Ret (PItem code pos rd size ser al csz) w' ->
+  rd = len (encode_rfc t0) /\ ser = Some (len (encode_rfc t0), encode_rfc t0).
+Proof. exact pipeline_roundtrip. Qed.
+Print Assumptions C01_pipeline_roundtrip.
+
+(* non-vacuity (evaluated): [ (_ h'61'), 1(1) ] - an array holding a chunked byte string and a tag - under an
+   oracle that refuses the 17th request, which falls inside cbor_copy (the load takes requests 0..11,
+   cbor_serialize_alloc request 12, the copy would take 13..21): the copy is NULL and nothing is left;
+   the same input truncated: NULL item, NOTENOUGHDATA at 6; a refusal inside the load: MEMERROR *)
+Example C01_example_pipeline :
+  match client_pipeline ex_refuse 8 ex_buf 16 world0,
+        client_pipeline (fun _ _ => false) 8 ex_buf 16 world0,
+        client_pipeline ex_refuse 8 [0x82; 0x5F; 0x41; 0x61; 0xFF; 0xC1] 16 world0,
+        client_pipeline (fun i _ => i =? 5) 8 ex_buf 16 world0 with
+  | Ret o1 w1, Ret o2 w2, Ret o3 w3, Ret o4 w4 =>
+      o1 = PItem ENone 0 7 7 (Some (7, ex_buf)) (7, ex_buf) None /\ live_cells w1 = [] /\ nreq w1 = 17 /\
+      o2 = PItem ENone 0 7 7 (Some (7, ex_buf)) (7, ex_buf) (Some 7) /\ live_cells w2 = [] /\ nreq w2 = 22 /\
+      o3 = PErr ENotEnough 6 /\ live_cells w3 = [] /\
+      o4 = PErr EMem 2 /\ live_cells w4 = []
+  | _, _, _, _ => False
+  end /\
+  ex_refuse = (fun i _ => i =? 16) /\ ex_buf = [0x82; 0x5F; 0x41; 0x61; 0xFF; 0xC1; 0x01] /\
+  load 8 SIZE_MAX ex_buf = LOk (IArray false [IBytesI [[97]]; ITag 1 (IUint I8 1)]) 7.
+Proof. split; [vm_compute; repeat split|]. split; [reflexivity|]. split; [reflexivity|]. vm_compute. reflexivity. Qed.
+Example C01_example_pipeline_theorem_applies :
+  exists o w', client_pipeline ex_refuse 8 ex_buf 16 world0 = Ret o w' /\
+    pipe_ok ex_refuse 8 ex_buf 16 o /\ forall b, heap w' b = None.
+Proof. exact ex_pipeline_theorem. Qed.
